@@ -71,8 +71,19 @@ def run_many(cases, timeout=10.0, procs=None):
     if len(args) < 200:
         return [_run(a) for a in args]
     procs = procs or min(16, mp.cpu_count())
+    out = []
+    hangs = 0
+    step = procs * 64
     with mp.Pool(procs) as pool:
-        return pool.map(_run, args, chunksize=max(1, len(args) // (procs * 8)))
+        for i in range(0, len(args), step):
+            if hangs >= 24:
+                # enough runs that do not end: the verdict is settled, do not wait for thousands of watchdogs
+                out += [("skipped", None)] * (len(args) - i)
+                break
+            part = pool.map(_run, args[i:i + step], chunksize=8)
+            hangs += sum(1 for o, _ in part if str(o).startswith("hang"))
+            out += part
+    return out
 
 
 SNIPPETS = [
